@@ -50,18 +50,20 @@ def inst(kind, n, tiers, prop='VF_ACCT', end='', rt=9, choice=9):
                    '-DDISPENSO_DISABLE_CASCADE_WAKERANGE'],
         'unwind': 3, 'nthreads': 1, 'spin_loops': True, 'unwindset': {_R16: 17, _R4: 5},
         'unwind_fn': {_RESIZE: 6, _DTOR: 6} if scn == 3 else ({_DTOR: 18} if scn == 5 else {}),
-        'timeout': 900, 'tiers': tiers,
+        'checks': ['--no-standard-checks', '--div-by-zero-check'],
+        'timeout': 1200, 'tiers': tiers,
         'bounds': 'ThreadPool(%d), model queue capacity 6, steal-ring capacity 4; history: %s%s' % (n, text, end),
     }
 
 
 INSTANCES = [
     inst('ring_resize', 1, ['quick', 'thorough'], rt=0, choice=0),
-    inst('ring_resize', 1, ['quick', 'thorough']),
-    inst('steal_resize', 1, ['quick', 'thorough']),
-    inst('steal_worker', 1, ['quick', 'thorough']),
-    inst('central', 1, ['quick', 'thorough']),
+    inst('steal_resize', 1, ['quick', 'thorough'], rt=0),
     inst('worker', 1, ['quick', 'thorough']),
+    inst('ring_resize', 1, ['thorough']),
+    inst('steal_resize', 1, ['thorough']),
+    inst('steal_worker', 1, ['thorough']),
+    inst('central', 1, ['thorough']),
     inst('central', 0, ['thorough']),
     inst('ring_resize', 2, ['thorough']),
     inst('steal_resize', 2, ['thorough']),
